@@ -2,10 +2,10 @@
 # usage: tools/seed_regress.sh [id ...]   runs every kept seeded change (or the named ones) against the quick check of its
 # property and prints one line per change: caught / MISSED, number of violating runs.  /repo is restored after each.
 cd /verif
-ids="$@"; [ -z "$ids" ] && ids=$(ls seeded)
+ids="$@"; [ -z "$ids" ] && ids=$(cd seeded && ls -d */ | tr -d /)
 for id in $ids; do
   prop=${id%%-*}
-  out=$(tools/seedtest.sh seeded/$id/patch.diff $prop 2>&1)
+  out=$(tools/seedtest.sh /verif/seeded/$id/patch.diff $prop 2>&1)
   line=$(echo "$out" | grep -E "^$prop tier=" | head -1)
   viol=$(echo "$line" | sed -n 's/.*violations=\([0-9]*\).*/\1/p')
   runs=$(echo "$line" | sed -n 's/.*runs=\([0-9]*\).*/\1/p')
